@@ -28,6 +28,7 @@ func init() {
 			configReadOnlyRules(c, "C11")
 			c11DebugPassthrough(c)
 			c11HeadEnd(c)
+			c11SniffSnapshot(c)
 		},
 	})
 }
@@ -425,4 +426,98 @@ func c11HeadEnd(c *Ctx) {
 	}
 	c.R.AddCells(len(inputs))
 	c.verdict(rule, rule+"/headEndIndex", c.P.FuncPos(f), uniq(problems), fmt.Sprintf("%d byte strings over {a, CR, LF} up to length 7", len(inputs)))
+}
+
+// c11SniffSnapshot: the debug wrappers sniff the handshake through an
+// io.TeeReader into a buffer and then replay / report buffer.Bytes(). The
+// snapshot is complete only if nothing is read through the tee after it was
+// taken: in every function that sets up a TeeReader, no call that reads
+// (http.ReadRequest / ReadResponse, io.Copy*, ReadAll, ReadFull) is reachable in
+// the control-flow graph from a Bytes() call on a bytes.Buffer.
+func c11SniffSnapshot(c *Ctx) {
+	const rule = "C11.sniff-snapshot-after-drain"
+	c.R.Rule(rule, 2, "the sniffed bytes are snapshotted only after the last read through the tee")
+	isDrain := func(cc *ssa.CallCommon) string {
+		if cc.IsInvoke() {
+			return "" // reading the replay itself is what the snapshot is for
+		}
+		callee := cc.StaticCallee()
+		if callee == nil {
+			return ""
+		}
+		switch callee.String() {
+		case "net/http.ReadRequest", "net/http.ReadResponse", "io.Copy", "io.CopyN", "io.CopyBuffer", "io.ReadAll", "io/ioutil.ReadAll", "io.ReadFull":
+			return callee.String()
+		}
+		return ""
+	}
+	n := 0
+	for _, fn := range c.P.AllModuleFuncs() {
+		if fn.Package() == nil || fn.Package().Pkg.Path() != wsutil {
+			continue
+		}
+		tee := false
+		type site struct {
+			b   *ssa.BasicBlock
+			idx int
+			in  ssa.Instruction
+		}
+		var snaps []site
+		var drains []site
+		var drainNames []string
+		for _, b := range fn.Blocks {
+			for i, in := range b.Instrs {
+				ci, ok := in.(ssa.CallInstruction)
+				if !ok {
+					continue
+				}
+				cc := ci.Common()
+				if callee := cc.StaticCallee(); callee != nil {
+					switch callee.String() {
+					case "io.TeeReader":
+						tee = true
+					case "(*bytes.Buffer).Bytes":
+						snaps = append(snaps, site{b, i, in})
+					}
+				}
+				if d := isDrain(cc); d != "" {
+					if _, isDefer := in.(*ssa.Defer); !isDefer {
+						drains = append(drains, site{b, i, in})
+						drainNames = append(drainNames, d)
+					}
+				}
+			}
+		}
+		if !tee || len(snaps) == 0 {
+			continue
+		}
+		n++
+		key := rule + "/" + astFuncName(fn)
+		bad := ""
+		for _, s := range snaps {
+			// blocks reachable from the snapshot
+			reach := map[*ssa.BasicBlock]bool{}
+			var walk func(b *ssa.BasicBlock)
+			walk = func(b *ssa.BasicBlock) {
+				for _, su := range b.Succs {
+					if !reach[su] {
+						reach[su] = true
+						walk(su)
+					}
+				}
+			}
+			walk(s.b)
+			for k, d := range drains {
+				if d.b == s.b && d.idx > s.idx || reach[d.b] && d.b != s.b || reach[d.b] && d.b == s.b {
+					bad = fmt.Sprintf("%s (at %s) can run after the snapshot taken at %s", drainNames[k], c.P.Pos(d.in.Pos()), c.P.Pos(s.in.Pos()))
+				}
+			}
+		}
+		if bad == "" {
+			c.R.OK(rule, key, c.P.FuncPos(fn), "every Bytes() snapshot of the sniff buffer is taken after the last read through the tee")
+		} else {
+			c.R.Fail(rule, key, c.P.FuncPos(fn), "the sniffed bytes are snapshotted too early: "+bad+" - what is read afterwards is missing from the replay / report, so the wrapped handshake sees a truncated stream depending on how the peer's bytes were split into reads")
+		}
+	}
+	c.R.Sites += n
 }
